@@ -101,8 +101,11 @@ def object_tables_case(g, idx):
     out = {}
     with warnings.catch_warnings():
         warnings.simplefilter("ignore")
+        # the calendar year attached to the loads is a label of the user's; the tables use the non-leap calendar whatever it is
+        load_years = [int(g.choice([2019, 2020, 2024, 2023]))] if g.random() < 0.4 else None
+        case["load_years"] = load_years
         search = Bisection1D([coords], [f"{nx}X{ny}"], float(round(g.uniform(0.2, 0.5), 2)), bh, pt, fluid, pipe, grout, soil, sp, handed,
-                             method=method, flow_type=FlowConfigType.BOREHOLE, search=False, field_type="rectangle")
+                             method=method, flow_type=FlowConfigType.BOREHOLE, search=False, field_type="rectangle", load_years=load_years)
         for op in ops:
             try:
                 if op == "simulate":
